@@ -35,6 +35,9 @@ class ExprMixin:
             return SV('tuple', tuple(self.st.out))
         if name in ('True', 'False'):
             return VB(name == 'True')
+        # class-body scope: a class-level expression may name sibling class constants
+        if getattr(fr, 'class_body', False) and fr.cls in self.src.classes and name in self.src.classes[fr.cls].consts:
+            return self.cls_attr(fr.cls, name, node)
         # module-level names of the real source
         v = self.module_name(name, fr.module)
         if v is not None:
@@ -97,6 +100,11 @@ class ExprMixin:
         # concrete python values on both sides: let CPython do it
         if a.k == 'const' and b.k == 'const':
             return VC(B.py_binop(op, a.t, b.t))
+        if (a.k == 'const' and isinstance(a.t, float) and b.k == 'int' and _conc_int(b.t) is not None) or \
+           (b.k == 'const' and isinstance(b.t, float) and a.k == 'int' and _conc_int(a.t) is not None):
+            x_ = a.t if a.k == 'const' else _conc_int(a.t)
+            y_ = b.t if b.k == 'const' else _conc_int(b.t)
+            return VC(B.py_binop(op, x_, y_))
         if a.k == 'const' and isinstance(a.t, str) and op == 'Mod':
             raise Unsupported('% string formatting')
         if op == 'Add' and (a.k == 'tuple' and b.k == 'tuple'):
@@ -301,7 +309,8 @@ class ExprMixin:
                 m = self.merge_ite(cs, a, b)
                 if m is not None:
                     return m
-                raise Unsupported('ite over different kinds in a specification expression')
+                # arms of different kinds (e.g. int vs None): case split on the condition instead
+                return a if self.branch(cs) else b
         if self.branch(c):
             return self.ev(e.body)
         return self.ev(e.orelse)
